@@ -772,6 +772,11 @@ def _case_ws(ctx):
         ups = run_many(ctx.facts, 'batch', 10.0, list(bt), upper=True)
         ws2 = {s: tuple(((' \t\n\u00a0', t[1], t[2]) if t[0] == ' ' else t) for t in s) for s in bt if any(t[0] == ' ' for t in s)}
         ws3 = {s: (T(' '),) + s + (T(' \n'),) for s in bt}
+        # punctuation tokens that carry whitespace (the tokenizer glues separators): ". " vs ".\n\u00a0"
+        pa = {s: tuple(((t[0] + ' ', t[1], t[2]) if t[0] in ('.', ',') else t) for t in s) for s in bt if any(t[0] in ('.', ',') for t in s)}
+        pb = {s: tuple(((' \u2009' + t[0] + '\n\u00a0', t[1], t[2]) if t[0] in ('.', ',') else t) for t in s) for s in pa}
+        ra = run_many(ctx.facts, 'batch', 10.0, list(pa.values()))
+        rb = run_many(ctx.facts, 'batch', 10.0, list(pb.values()))
         r2 = run_many(ctx.facts, 'batch', 10.0, list(ws2.values()))
         r3 = run_many(ctx.facts, 'batch', 10.0, list(ws3.values()))
         for s, b in bt.items():
@@ -788,6 +793,10 @@ def _case_ws(ctx):
             w = r3[ws3[s]]
             if w.error or [(o[0] - 1, o[1] - 1) + o[2:] for o in w.occs] != b.occs:
                 bad_ws.append((s, b.occs, w.occs, w.error))
+            if s in pa:
+                wa, wb = ra[pa[s]], rb[pb[s]]
+                if wa.error or wb.error or wa.occs != wb.occs:
+                    bad_ws.append((pa[s], wa.occs, wb.occs, wa.error or wb.error))
         return ('ok', bad_case, bad_ws, n)
     return ctx.memo(('scanvm-case-ws',), mk)
 
@@ -824,3 +833,120 @@ def rule_ws_scanner(ctx, rep):
     else:
         rep.ok(R, 'whitespace', '%d scripts' % n)
     rep.floor(R, n, 3500, 'scripts compared')
+
+
+# ---------------------------------------------------------------------------------------------------------
+class _ValidatorEnv(ScanEnv):
+    """text2digits: the group interpreter is the boundary; its three possible answers are enumerated."""
+
+    def __init__(self, answer):
+        super().__init__()
+        self.answer = answer
+        self.words = None
+
+    def call(self, vm, name, callee, resolved, args, t):
+        if name == 'LangInterpreter::exec_group' and isinstance(vm.deref(args[0]), type(self.lang)):
+            it = vm.deref(args[1])
+            from ..vm import Iter, Enum
+            self.words = list(it.rest()) if isinstance(it, Iter) else repr(it)
+            from ..scanmodel import DS, ERR
+            if self.answer == 'empty':
+                return Enum('core::result::Result', 'Ok', [DS()])
+            if self.answer == 'number':
+                ds = DS()
+                ds.words = ['twenty', 'one']
+                return Enum('core::result::Result', 'Ok', [ds])
+            if self.answer == 'ordinal':
+                ds = DS()
+                ds.words = ['first']
+                ds.ordinal = True
+                return Enum('core::result::Result', 'Ok', [ds])
+            return ERR(self.answer)
+        return super().call(vm, name, callee, resolved, args, t)
+
+
+def rule_validator_entry(ctx, rep):
+    R = 'V03-VALIDATOR-ENTRY'
+    rep.rule(R, 'text2digits interpreted with the group interpreter as boundary, for each of its possible answers: an empty result is '
+                'reported as an error (never formatted), a number is rendered by format_and_value of that same builder, an error is passed '
+                'on unchanged; the words handed over are the lower-cased text split on Unicode whitespace')
+    texts = [('', []), ('   ', []), ('Twenty One', ['twenty', 'one']), (' \tTWENTY  one\n', ['twenty', 'one']), ('twenty\u00a0one\u2009\u3000two', ['twenty', 'one', 'two']), ('ÉTÉ x', ['été', 'x']), ('a-b', ['a-b'])]
+    for answer in ('empty', 'number', 'ordinal', 'NaN', 'Overlap', 'Incomplete', 'Frozen'):
+        for text, words in texts:
+            ent = '%s|%r' % (answer, text)
+            env = _ValidatorEnv(answer)
+            vm = VM(ctx.facts, env)
+            try:
+                r = vm.run('word_to_digit::text2digits', [text, env.lang])
+            except Panic as e:
+                rep.violation(R, ent, 'text2digits(%r) reaches a panic site when the group interpreter answers %s: %s' % (text, answer, e))
+                continue
+            except Unsupported as e:
+                rep.anchor(R, ent, 'cannot interpret text2digits: %s' % e)
+                continue
+            got = (r.variant, vm.deref(r.payload[0]))
+            got = (got[0], got[1].variant if hasattr(got[1], 'variant') else got[1])
+            want = {'empty': ('Err', 'NaN'), 'number': ('Ok', '21'), 'ordinal': ('Ok', '1st')}.get(answer, ('Err', answer))
+            ok = got == want and env.words == words
+            rep.check(ok, R, ent, '%s -> %s' % (answer, want), 'text2digits(%r) with the group interpreter answering %s gives %s (expected %s); words handed over: %s (expected %s)' % (
+                text, answer, got, want, env.words, words))
+
+
+def _validate(facts, words):
+    env = ScanEnv()
+    vm = VM(facts, env)
+    from ..vm import Iter
+    r = vm.run('lang::LangInterpreter::exec_group', [env.lang, Iter(list(words))])
+    if r.variant == 'Ok':
+        ds = vm.deref(r.payload[0])
+        return ('Ok', env.fmt(ds)[0] if ds.words else '')
+    return ('Err', vm.deref(r.payload[0]).variant)
+
+
+def rule_validator_scanner(ctx, rep):
+    R = 'V07-VALIDATOR-SCANNER'
+    rep.rule(R, 'the all-or-nothing group interpreter (exec_group) and the scanner, both interpreted against the same abstract language on every '
+                'word script: the words of each non-decimal occurrence validate on their own to the same digit text; a script the validator '
+                'accepts is reported by the scanner (threshold 0) as one occurrence over the whole script with that text; a script ending on a '
+                'linking word is Incomplete')
+    VW = [T('one'), T('twenty'), T('first'), T('zero'), T('and'), T('the')]
+    d = depth_for(ctx, 4, 5)
+    bt = table(ctx, 'valid', VW, d, 0.0, 'batch')
+    if not _unsupported(rep, R, bt):
+        return
+    bad1, bad2, bad3 = [], [], []
+    n = 0
+    cache = {}
+
+    def val(words):
+        if words not in cache:
+            cache[words] = _validate(ctx.facts, words)
+        return cache[words]
+    try:
+        for s, b in bt.items():
+            if b.error:
+                continue
+            n += 1
+            words = tuple(t[0] for t in s)
+            for o in b.occs:
+                if '.' in o[2]:
+                    continue
+                v = val(words[o[0]:o[1]])
+                if v != ('Ok', o[2]):
+                    bad1.append((s, o, v))
+            v = val(words)
+            if v[0] == 'Ok' and v[1] != '':
+                if [x[:3] for x in b.occs] != [(0, len(s), v[1])]:
+                    bad2.append((s, v, b.occs))
+            if words and words[-1] == 'and' and v[0] == 'Ok':
+                bad3.append((s, v))
+    except (Unsupported, Panic) as e:
+        rep.anchor(R, 'machine', 'cannot interpret exec_group: %s' % e)
+        return
+    rep.check(not bad1, R, 'span-validates', 'every reported span validates to its own text',
+              'the scanner reports %s on `%s` but validating those words gives %s (%d cases)' % ((bad1[0][1][:3], show(bad1[0][0]), bad1[0][2], len(bad1)) if bad1 else ('', '', '', 0)))
+    rep.check(not bad2, R, 'accepted-is-one-number', 'an accepted script is one occurrence with the same text',
+              '`%s` validates to %s but the scanner reports %s (%d cases)' % ((show(bad2[0][0]), bad2[0][1], [o[:3] for o in bad2[0][2]], len(bad2)) if bad2 else ('', '', '', 0)))
+    rep.check(not bad3, R, 'no-dangling-link', 'a script ending on a linking word is not accepted',
+              '`%s` ends on a linking word but validates to %s' % ((show(bad3[0][0]), bad3[0][1]) if bad3 else ('', '')))
+    rep.floor(R, n, 1500, 'scripts compared')
